@@ -213,11 +213,14 @@ fn gen_punct(g: &mut Stream, n: usize) -> String {
         0..=5 => String::new(),
         6..=8 => {
             // valid pattern dividing n, at least one kept block
-            let ds: Vec<usize> = (2..=n.min(8)).filter(|d| n % d == 0).collect();
+            // (patterns of up to 13 blocks: seeded change C19-r9-2 derives the expected number of
+            // LLRs from a floating-point rate, which truncates for some patterns of 7, 9, 11 blocks)
+            let ds: Vec<usize> = (2..=n.min(13)).filter(|d| n % d == 0).collect();
             if ds.is_empty() {
                 return String::new();
             }
-            let p = *g.pick(&ds);
+            let big: Vec<usize> = ds.iter().copied().filter(|&d| d >= 7).collect();
+            let p = if !big.is_empty() && g.chance(1, 2) { *g.pick(&big) } else { *g.pick(&ds) };
             let mut v: Vec<bool> = (0..p).map(|_| g.chance(2, 3)).collect();
             if !v.iter().any(|&b| b) {
                 v[0] = true;
@@ -247,7 +250,13 @@ fn gen_content(g: &mut Stream, for_encoder: bool) -> (Vec<u8>, String) {
         _ => Tail::Invertible,
     };
     let mut m = random_code(g, k, r, tail, 2);
-    if g.chance(1, 40) {
+    if g.chance(1, 8) {
+        // a codeword length with a divisor between 7 and 13, for the longer puncturing patterns
+        let n = (7 + g.below(7) as usize) * (1 + g.below(5) as usize);
+        let r = 1 + g.below(6.min(n as u64 - 1)) as usize;
+        let tl = if g.chance(1, 2) { Tail::Staircase } else { Tail::Invertible };
+        m = random_code(g, n - r, r, tl, 2);
+    } else if g.chance(1, 40) {
         // a long code: its alist text is well beyond any small fixed buffer (seeded change
         // C19-r7-2 cuts strings at PATH_MAX = 4096 bytes)
         let k = 150 + g.below(250) as usize;
